@@ -342,11 +342,11 @@ def search(ctx, deep):
         d = k.get('replay')
         if d and 'expr' in d and d.get('kind') != 'struct': cases.append({'kind': d['kind'], 'e': to_tuple(d['expr']), 'atoms': d.get('atoms'), 'fam': 'known'})
     fams = boolean_families(ctx, deep)
-    # the largest size of every family goes to one position per kind of context in the thorough tier (first filter, element,
-    # lambda body, keyword argument); the deep search after a broken run and all smaller sizes use all seven positions
+    # the largest size of every family (only generated in the thorough tier / the deep search after a broken run) goes to one
+    # position per kind of context (first filter, element, lambda body, keyword argument); all smaller sizes use all seven positions
     top = {'andornot': 5, 'full': 6, 'full-not': 4, 'isnone': 4, 'const': 4}
     for fam, e in fams:
-        few = ctx.thorough and not deep and L.leaves(e) >= top.get(fam, 99)
+        few = deep and L.leaves(e) >= top.get(fam, 99)
         for kind in (('filter', 'elt', 'lambda', 'kwarg') if few else L.POSITIONS):
             cases.append({'kind': kind, 'e': e, 'atoms': None, 'fam': fam})
     n_exh = len(cases)
